@@ -409,7 +409,12 @@ class MarkdownNormalizer(Renderer):
                 # within a quote block it would be the secondary prefix, like `> `.
                 result += self._second_prefix.rstrip() + "\n"
 
-        result += self.render_children(element)
+        rendered = self.render_children(element)
+        if not rendered:
+            # An empty item still holds its place in the list: emit the bare marker.
+            rendered = self._prefix.rstrip() + "\n"
+            self._prefix = self._second_prefix
+        result += rendered
 
         return result
 
